@@ -18,6 +18,14 @@ package splitcarfetcher
 //@ func NewSplitCarReader
 //@   mode int
 //@   ensures result1 == nil ==> result0 != nil
+//@   # C16: the size table handed to the concatenating reader is [original header size, ContentSize of piece 0, 1, ...] -
+//@   # the RECORDED content size of every piece (a remote piece may be longer than header+content: padding after upload)
+//@   fncall NewMultiReaderAt requires len(arg1) == len(files.CarPieces) + 1 && len(arg0) == len(arg1)
+//@   fncall NewMultiReaderAt requires forall k int :: 0 <= k && k < len(files.CarPieces) ==> arg1[k+1] == int64(files.CarPieces[k].ContentSize)
+//@   # assumed (trusted boundary): Size() of a piece handle only reports a number, it writes nothing
+//@   fncall fi.Size ensures true
+//@   loop 1 invariant len(sizes) == rangeidx1 + 1 && len(readers) == len(sizes)
+//@   loop 1 invariant forall k int :: 0 <= k && k < rangeidx1 ==> sizes[k+1] == int64(files.CarPieces[k].ContentSize)
 //@   noframe
 
 // returns its freshly built *HTTPSingleFileRemoteReaderAt on success (HTTP HEAD request abstracted)
